@@ -24,6 +24,7 @@ use std::ops::Range;
 use std::os::unix::fs::symlink;
 use std::path::{Path, PathBuf};
 use std::sync::Arc;
+use std::sync::atomic::{AtomicBool, Ordering};
 use std::thread;
 
 use cfg_if::cfg_if;
@@ -115,6 +116,7 @@ fn queue_file_range(
     range: Range<u64>,
     pool: &ThreadPool,
     status_channel: &Arc<dyn StatusUpdater>,
+    failed: &Arc<AtomicBool>,
 ) -> Result<u64> {
     let len = range.end - range.start;
     let bsize = handle.config.block_size;
@@ -123,6 +125,7 @@ fn queue_file_range(
     for blkn in 0..blocks {
         let harc = handle.clone();
         let stat_tx = status_channel.clone();
+        let failed = failed.clone();
         let bytes = cmp::min(len - (blkn * bsize), bsize);
         let off = range.start + (blkn * bsize);
 
@@ -143,6 +146,9 @@ fn queue_file_range(
                 }
                 Err(e) => {
                     error!("Error copying: aborting.");
+                    // Not every updater forwards errors; make sure
+                    // copy() itself fails too.
+                    failed.store(true, Ordering::SeqCst);
                     stat_tx.send(StatusUpdate::Error(XcpError::CopyError(e.to_string())))
                 }
             };
@@ -162,6 +168,7 @@ fn queue_file_blocks(
     pool: &ThreadPool,
     status_channel: &Arc<dyn StatusUpdater>,
     config: &Arc<Config>,
+    failed: &Arc<AtomicBool>,
 ) -> Result<u64> {
     let handle = CopyHandle::new(source, dest, config)?;
     let len = handle.metadata.len();
@@ -179,7 +186,7 @@ fn queue_file_blocks(
     let harc = Arc::new(handle);
 
     let queue_whole_file = || {
-        queue_file_range(&harc, 0..len, pool, status_channel)
+        queue_file_range(&harc, 0..len, pool, status_channel, failed)
     };
 
     let queued = if probably_sparse(&harc.infd)? {
@@ -187,7 +194,7 @@ fn queue_file_blocks(
             let sparse_map = merge_extents(extents)?;
             let mut queued = 0;
             for ext in sparse_map {
-                queued += queue_file_range(&harc, ext.into(), pool, status_channel)?;
+                queued += queue_file_range(&harc, ext.into(), pool, status_channel, failed)?;
             }
             queued
         } else {
@@ -218,11 +225,12 @@ fn dispatch_worker(file_q: cbc::Receiver<Operation>, stats: &Arc<dyn StatusUpdat
         // calculate it from ulimits.
         .queue_len(128)
         .build();
+    let failed = Arc::new(AtomicBool::new(false));
     for op in file_q {
         match op {
             Operation::Copy(from, to) => {
                 info!("Dispatch[{:?}]: Copy {:?} -> {:?}", thread::current().id(), from, to);
-                let r = queue_file_blocks(&from, &to, &copy_pool, stats, &config);
+                let r = queue_file_blocks(&from, &to, &copy_pool, stats, &config, &failed);
                 if let Err(e) = r {
                     stats.send(StatusUpdate::Error(XcpError::CopyError(e.to_string())))?;
                     error!("Dispatcher: Error copying {:?} -> {:?}.", from, to);
@@ -257,6 +265,10 @@ fn dispatch_worker(file_q: cbc::Receiver<Operation>, stats: &Arc<dyn StatusUpdat
 
     copy_pool.join();
     info!("Pool complete");
+
+    if failed.load(Ordering::SeqCst) {
+        return Err(XcpError::CopyError("Error during block copy".to_string()).into());
+    }
 
     Ok(())
 }
